@@ -624,6 +624,9 @@ def run(F, R, config=None):
     from . import c05
     K.borrow_rule(R, lambda sub: c05.r2(F, sub), "C18-R6", "the leapfrog hands out LeapfrogResult::Ok only under an energy gate that a NaN or infinite energy error cannot pass "
                   "(C05-R2 analysis): a state whose momentum left the unit sphere through a NaN density is rejected / retried, never accepted", only_rules={"C05-R2"})
+    # "round(subsample_frequency * L / eps) steps", "dynamic_step_size", "trajectory kind": stated in terms of the MCLMC settings, so the chain must get them as set
+    from . import convert
+    convert.faithful_conversion(F, R, "C18-R7", focus=lambda path, key: "MclmcSettings" in path, focus_text=" (the MCLMC presets)")
     R.assume("the ESH closed form and its kinetic-energy change are numerical identities and not decided")
     R.assume("Math::array_normalize of a user-supplied Math divides by the Euclidean norm")
 
